@@ -149,6 +149,51 @@ theorem c12_bary_roundtrip (m0 x0 : K) (act : List (K × K)) (tst : List K)
   · first | rfl | trivial | simp
   · simp [List.map_map, Function.comp_def]
 
+/-! ### in-place DH maps of MERCURIUS and TRACE -/
+
+/-- the stored `com_pos`/`com_vel` is the centre of mass (velocity) of the active particles -/
+theorem c12_hybrid_com (m0 x0 : K) (act : List (K × K)) (tst : List K) :
+    (hybFwdPos m0 x0 act tst).com = (m0 * x0 + mxsum act) / (m0 + msum act) ∧
+    (hybFwdVel m0 x0 act tst).com = (m0 * x0 + mxsum act) / (m0 + msum act) := by
+  simp only [hybFwdPos, hybFwdVel, hybAcc_eq, sc_zero, sc_hdiv]
+  simp [mxsum, msum]
+
+/-- `dh_to_inertial ∘ inertial_to_dh = id` on positions (particle 0 is rebuilt from the
+    stored centre of mass; its own slot is ignored by the inverse) -/
+theorem c12_hybrid_pos_roundtrip (m0 x0 : K) (act : List (K × K)) (tst : List K)
+    (hM : m0 + msum act ≠ 0) :
+    let o := hybFwdPos m0 x0 act tst
+    let b := hybInvPos m0 o.com ((act.map Prod.fst).zip o.act) o.tst
+    b.x0 = x0 ∧ b.act = act.map Prod.snd ∧ b.tst = tst := by
+  have hz := zip_map_fst act (fun p => p.2 - x0)
+  have hM' : msum act + m0 ≠ 0 := by rwa [add_comm]
+  have key : (m0 * x0 + mxsum act) / (m0 + msum act)
+      - (mxsum act - x0 * msum act) / (msum act + m0) = x0 := by
+    field_simp; ring
+  simp only [hybFwdPos, hybInvPos, hybAcc_eq, sc_zero, sc_hdiv, sc_hsub, sc_hadd, hz, mxsum_shift,
+    msum_map_snd]
+  have e0 : (0 : K) + mxsum ((m0, x0) :: act) = m0 * x0 + mxsum act := by simp [mxsum]
+  have e1 : (0 : K) + msum ((m0, x0) :: act) = m0 + msum act := by simp [msum]
+  rw [e0, e1, zero_add, zero_add, key]
+  refine ⟨rfl, ?_, ?_⟩
+  · simp [List.map_map, Function.comp_def]
+  · simp [List.map_map, Function.comp_def]
+
+theorem c12_hybrid_vel_roundtrip (m0 v0 : K) (act : List (K × K)) (tst : List K)
+    (hM : m0 + msum act ≠ 0) (h0 : m0 ≠ 0) :
+    let o := hybFwdVel m0 v0 act tst
+    let b := hybInvVel m0 o.com ((act.map Prod.fst).zip o.act) o.tst
+    b.x0 = v0 ∧ b.act = act.map Prod.snd ∧ b.tst = tst := by
+  have hz := fun c : K => zip_map_fst act (fun p => p.2 - c)
+  simp only [hybFwdVel, hybInvVel, hybAcc_eq, sc_zero, sc_hdiv, sc_hsub, sc_hadd, hz, mxsum_shift]
+  have e0 : (0 : K) + mxsum ((m0, v0) :: act) = m0 * v0 + mxsum act := by simp [mxsum]
+  have e1 : (0 : K) + msum ((m0, v0) :: act) = m0 + msum act := by simp [msum]
+  rw [e0, e1, zero_add]
+  refine ⟨?_, ?_, ?_⟩
+  · field_simp; ring
+  · simp [List.map_map, Function.comp_def]
+  · simp [List.map_map, Function.comp_def]
+
 /-! ### non-vacuity: a concrete three-body set with a zero-mass active body and a test
     particle meets every hypothesis (over ℚ) -/
 example : SumsNZ (1 : ℚ) [(0, 2), (1/1000, 5)] ∧ WhdsNZ (1 : ℚ) [(0, 2), (1/1000, 5)] ∧
